@@ -52,10 +52,10 @@ def gen_session(rnd, cls):
     elif cls == "multiline":
         lines = ["".join(rnd.choice(ASCII) for _ in range(rnd.choice([0, 1, 3, width - p, width - p - 1, width + 2, 5])))
                  for _ in range(rnd.choice([2, 2, 3]))]
-        typ("\n".join(lines))
+        typ("\\\n".join(lines))
         for _ in range(rnd.randrange(0, 5)):
             keys.append(rnd.choice([b"\x02", b"\x01", b"\x05", b"\x10", b"\x0e", b"\x1b<", b"z", b"\x7f"]))
-    return {"cls": cls, "width": width, "height": 24, "prompt": prompt, "keys": keys}
+    return {"cls": cls, "width": width, "height": 24, "prompt": prompt, "keys": keys, "multiline": cls == "multiline"}
 
 
 def known_class(f):
@@ -63,6 +63,8 @@ def known_class(f):
     w, p = f["width"], f["pwidth"]
     buf = f["buffer"]
     lines = buf.split("\n")
+    if len(lines) >= 2:
+        return "C04-multiline"
     widths = [sum(5 if ch == "\t" else D.rune_width(ch) for ch in ln) for ln in lines]
     if any(D.rune_width(ch) == 2 for ch in buf):
         # a wide character that does not fit in the last column (the terminal wraps it early, leaving a cell unused)
@@ -83,6 +85,9 @@ def known_class(f):
 
 
 KNOWN = {
+    "C04-multiline": "a buffer with embedded newlines is repainted wrongly once it has three lines, or a continuation line that wraps or "
+                     "exactly fills a row (the multi-line prompt pass moves up by the number of rows and never comes back down; LineSpan "
+                     "counts one extra row per line after the first): text painted over, secondary prompt on the wrong row, cursor off",
     "C04-no-prompt": "with no prompt (width 0) an empty buffer counts as a line that exactly fills a row (0 mod width = 0): every redisplay "
                      "of an empty buffer emits a newline and the whole input area moves one row further down",
     "C04-exact-fill-erased": "a single-line buffer that exactly fills its last row: the character in the last column is erased by the "
@@ -100,7 +105,7 @@ def check(rep, tier, seed):
     n = 150 if tier == "quick" else 4000
     classes = ["fill", "ascii", "ghost", "wide", "comb", "tabs", "multiline", "fill", "ascii", "ghost"]
     sess = [gen_session(rnd, classes[i % len(classes)]) for i in range(n)]
-    jobs = [{"scenario": {"calls": 1, "prompt": s["prompt"]}, "chunks": s["keys"], "cols": s["width"], "rows": s["height"],
+    jobs = [{"scenario": {"calls": 1, "prompt": s["prompt"], "multiline": s["multiline"]}, "chunks": s["keys"], "cols": s["width"], "rows": s["height"],
              "keep_output": True, "inputrc": "set convert-meta off\n", "step_timeout": 8.0} for s in sess]
     res = P.run_many(jobs)
     # the oracle terminal: everything written, step by step, through Term.v
@@ -147,7 +152,10 @@ def check(rep, tier, seed):
             stats["frames_scrolled_skipped"] += 1
             continue
         fails = []
-        rows_seen, cur_seen = st["rows"], (st["r"], st["c"])
+        # continuation rows of a multi-line buffer start with the secondary prompt glyph in the indent area: not buffer text
+        rows_seen = [(" " + x[1:]).rstrip(" ") if (i > 0 and x.startswith("\u2514") and "\n" in f["buffer"]) else x
+                     for i, x in enumerate(st["rows"])]
+        cur_seen = (st["r"], st["c"])
         shifted = False
         k = st["r"] - e["r"]
         if f["pwidth"] == 0 and k >= 1 and all(x == "" for x in rows_seen[:k]):
